@@ -2,9 +2,9 @@
    scope only, single-variable marginalisation, all-missing = one) for OR-trees over Chow-Liu
    leaves, total mass, positional evaluation = semantics, FIFO batch evaluation = row-wise
    evaluation, learner skeleton well-formed for every oracle, certificate soundness. *)
-From Coq Require Import List Arith ZArith Ring Lia Bool.
+From Coq Require Import List Arith ZArith Ring Lia Bool Permutation.
 From DV Require Import Model.Core Model.Clt Model.Check Model.Cnet
-  Proofs.CoreFacts Proofs.CltFacts Proofs.CheckFacts.
+  Proofs.CoreFacts Proofs.CltFacts Proofs.CheckFacts Proofs.CltGather.
 Import ListNotations.
 
 (* ---------- index_of / remove_at / row_of ---------- *)
@@ -495,3 +495,74 @@ Section CnetUnfold.
     cnet_val (OCut sc v w0 w1 l rr) r = tadd (tmul w0 (cnet_val l r)) (tmul w1 (cnet_val rr r)).
   Proof. intros H. unfold Cnet.cnet_val. cbn. now rewrite H. Qed.
 End CnetUnfold.
+
+(* ---------- gather leaves = message-passing leaves on rows complete on the scope ---------- *)
+Section CnetGather.
+  Variable T : Type.
+  Variables (t0 t1 : T) (tadd tmul : T -> T -> T).
+  Hypothesis SRth : semi_ring_theory t0 t1 tadd tmul (@eq T).
+  Notation clt := (clt T).
+  Notation ornode := (ornode T).
+  Notation osc := (osc T).
+  Notation cnet_val := (cnet_val T t0 t1 tadd tmul).
+  Notation cnet_gat := (cnet_gat T t0 t1 tadd tmul).
+  Notation cnet_pos := (cnet_pos T t0 t1 tmul).
+  Notation wf_cnet := (wf_cnet T t0).
+  Notation leaf_wf := (leaf_wf T t0).
+
+  Definition root_ok (c : clt) : Prop :=
+    nth (croot T c) (cpar c) None = None /\
+    (forall y, cpt_fn T t0 c (croot T c) 1%Z y = cpt_fn T t0 c (croot T c) 0%Z y).
+  Fixpoint groot_ok (n : ornode) : Prop :=
+    match n with
+    | OLeaf _ c => root_ok c
+    | OCut _ _ _ _ l r => groot_ok l /\ groot_ok r
+    end.
+
+  Lemma leaf_wf_gwf sc c : leaf_wf sc c -> root_ok c -> clt_gwf T t0 c.
+  Proof.
+    intros (Hsc & Hnd & Hpos & Hlen & _ & Hndv & Hv) [Hr Hrows]. unfold clt_gwf.
+    assert (Hl : length (vars T (clt_tree T t0 c)) = length sc).
+    { apply Permutation_length. apply NoDup_Permutation; assumption. }
+    rewrite Hsc, Hlen, Hl. repeat split; auto.
+  Qed.
+
+  Theorem cnet_gat_val n : wf_cnet n -> groot_ok n -> forall r,
+      (forall v, In v (osc n) -> r v <> None) -> cnet_gat n r = cnet_val n r.
+  Proof.
+    induction n as [sc c|sc v w0 w1 l IHl rr IHr]; intros Hwf Hg r Hc.
+    - destruct Hwf as (_ & _ & Hl). cbn in Hc, Hg. unfold Cnet.cnet_gat, Cnet.cnet_val. cbn [Cnet.cnet_sem].
+      apply (clt_gather_val T t0 t1 tadd tmul SRth c (leaf_wf_gwf sc c Hl Hg)).
+      destruct Hl as (Hsc & _). rewrite Hsc. unfold complete_on. apply forallb_forall. intros u Hu.
+      specialize (Hc u Hu). destruct (r u); [reflexivity | congruence].
+    - destruct Hwf as (Hnd & Hin & Hsl & Hsr & Hwl & Hwr). destruct Hg as [Hgl Hgr]. cbn in Hc.
+      assert (El : cnet_gat l r = cnet_val l r).
+      { apply IHl; auto. intros u Hu. apply Hc. rewrite Hsl in Hu. now apply (cut_child_scope sc v u Hnd Hin). }
+      assert (Er : cnet_gat rr r = cnet_val rr r).
+      { apply IHr; auto. intros u Hu. apply Hc. rewrite Hsr in Hu. now apply (cut_child_scope sc v u Hnd Hin). }
+      unfold Cnet.cnet_gat, Cnet.cnet_val in *. cbn [Cnet.cnet_sem]. now rewrite El, Er.
+  Qed.
+
+  Lemma row_of_complete sc xs v : length xs = length sc -> In v sc -> row_of sc xs v <> None.
+  Proof.
+    intros Hl Hin. rewrite (row_of_index sc xs v Hin). intro H. apply nth_error_None in H.
+    pose proof (index_of_lt v sc Hin). lia.
+  Qed.
+
+  (* the code's positional evaluation is the OR-tree semantics with message-passing leaves *)
+  Theorem cnet_pos_val n : wf_cnet n -> groot_ok n -> forall xs, length xs = length (osc n) -> binary xs ->
+      cnet_pos n xs = cnet_val n (row_of (osc n) xs).
+  Proof.
+    intros Hwf Hg xs Hl Hb. rewrite (cnet_pos_sem T t0 t1 tadd tmul n Hwf xs Hl Hb).
+    apply (cnet_gat_val n Hwf Hg). intros v Hv. now apply row_of_complete.
+  Qed.
+
+  Variable teqb : T -> T -> bool.
+  Hypothesis teqb_sound : forall a b, teqb a b = true -> a = b.
+  Theorem groot_okb_sound (n : ornode) : groot_okb T t0 teqb n = true -> groot_ok n.
+  Proof.
+    induction n as [sc c|sc v w0 w1 l IHl r IHr]; cbn.
+    - apply (root_rows_eqb_sound T t0 teqb teqb_sound c).
+    - rewrite andb_true_iff. intros [H1 H2]. auto.
+  Qed.
+End CnetGather.
